@@ -520,7 +520,7 @@ impl Gen {
             }
             Fam::Clear => Step::Clear,
             Fam::Shrink => Step::Shrink,
-            Fam::Reserve => Step::Reserve { n: *self.rng.pick(&[0, 1, n, 1000, 7]), exact: self.rng.chance(1, 2) },
+            Fam::Reserve => Step::Reserve { n: if self.rng.chance(1, 8) { *self.rng.pick(&[usize::MAX, usize::MAX - n, usize::MAX / 2 + 1, isize::MAX as usize]) } else { *self.rng.pick(&[0, 1, n, 1000, 7]) }, exact: self.rng.chance(1, 2) },
             Fam::TryReserve => {
                 let nn = match self.rng.below(12) {
                     0 => 0,
